@@ -60,19 +60,22 @@ func relClose(a, b, tol float64) bool {
 
 func init() {
 	engine.Register(&engine.Check{
-		ID:        "C20",
-		Title:     "The exported helper algebra obeys its mathematical laws",
-		Technique: "exhaustive choice-tree enumeration (E1): all slices over a 3-letter alphabet up to length 4 (and all pairs), all (index, shift) in a dense window plus boundary classes, all 0<=k<=n<=12, vector/matrix component alphabets; against map/set, big-integer and direct-formula references",
-		Assumptions: []string{"slices longer than 4 / alphabets larger than 3 letters, and vector components outside the 8-value alphabet, are not covered", "references: Go maps, math/big, direct formulas with stated relative tolerances"},
+		ID:          "C20",
+		Title:       "The exported helper algebra obeys its mathematical laws",
+		Technique:   "exhaustive choice-tree enumeration (E1): all slices over a 3-letter alphabet up to length 5 (thorough: 6) (and all pairs), all (index, shift) in a dense window plus boundary classes, all 0<=k<=n<=12 (thorough: 16), vector/matrix component alphabets; against map/set, big-integer and direct-formula references",
+		Assumptions: []string{"slices longer than 5 (thorough: 6) / alphabets larger than 3 letters, and vector components outside the 8-value alphabet, are not covered", "references: Go maps, math/big, direct formulas with stated relative tolerances"},
 		Phases: func(tier string) []engine.Phase {
-			maxLen := 4
-			if tier == "thorough" {
-				maxLen = 5
+			maxLen := 5
+			thorough := tier == "thorough"
+			mmLen, idxWin, combN, zc := 4, int64(64), 13, []float64{0, 1, -2}
+			if thorough {
+				maxLen = 6
+				mmLen, idxWin, combN, zc = 6, 2048, 17, vecComps
 			}
 			sl := slicesOver(3, maxLen)
 			strs := []string{"a", "b", ""}
 			return []engine.Phase{
-				{Name: "set-helpers", Serial: true, Bounds: engine.Bounds{InputDev: -1},
+				{Name: "set-helpers", Serial: !thorough, ShardDepth: 1, Bounds: engine.Bounds{InputDev: -1},
 					Rule: "all ordered pairs of slices over {0,1,2} up to the length bound (ints, and the same shapes over strings {a,b,\"\"}): Union/Intersect/Difference/Unique/Include as set operations, inputs unmodified; non-trivial = distinct pairs where both slices have a repeated element",
 					Body: func(c *engine.Ctx) {
 						a := sl[c.In("a", len(sl))]
@@ -141,10 +144,10 @@ func init() {
 							c.Violation("C20:set-helpers:string-instantiation-differs", d)
 						}
 					}},
-				{Name: "max-min", Serial: true, Bounds: engine.Bounds{InputDev: -1},
-					Rule: "all slices over {-1,0,1,2} up to length 4 (ints and floats) and the empty slice: Max/Min return an element bounding all others, error on empty; non-trivial = distinct slices of length >= 2",
+				{Name: "max-min", Serial: !thorough, ShardDepth: 1, Bounds: engine.Bounds{InputDev: -1},
+					Rule: "all slices over {-1,0,1,2} up to length 4 (thorough: 6) (ints and floats) and the empty slice: Max/Min return an element bounding all others, error on empty; non-trivial = distinct slices of length >= 2",
 					Body: func(c *engine.Ctx) {
-						s4 := slicesOver(4, 4)
+						s4 := slicesOver(4, mmLen)
 						s := s4[c.In("s", len(s4))]
 						xs := make([]int, len(s))
 						fs := make([]float64, len(s))
@@ -220,10 +223,10 @@ func init() {
 						}
 					}},
 				{Name: "arithmetic-shift", Serial: true, Bounds: engine.Bounds{InputDev: -1},
-					Rule: "index in [-64,64] u {+-3,+-(2^k+-1) for k in 10,31,40,61} x shift in [-62,62] without int64 overflow: CalculateArithmeticShift = floor(index*2^shift) (big.Int); non-trivial = distinct cases with negative index and negative shift",
+					Rule: "index in [-64,64] (thorough: [-2048,2048]) u {+-3,+-(2^k+-1) for k in 10,31,40,61} x shift in [-62,62] without int64 overflow: CalculateArithmeticShift = floor(index*2^shift) (big.Int); non-trivial = distinct cases with negative index and negative shift",
 					Body: func(c *engine.Ctx) {
 						var idx []int64
-						for i := int64(-64); i <= 64; i++ {
+						for i := -idxWin; i <= idxWin; i++ {
 							idx = append(idx, i)
 						}
 						for _, k := range []uint{10, 31, 40, 61} {
@@ -252,10 +255,10 @@ func init() {
 						}
 					}},
 				{Name: "combinations", Serial: true, Bounds: engine.Bounds{InputDev: -1},
-					Rule: "all 0 <= k <= n <= 12: the visit sequence equals the lexicographic enumeration of k-subsets of 0..n-1, each once; non-trivial = distinct (n,k) with 0 < k < n",
+					Rule: "all 0 <= k <= n <= 12 (thorough: 16): the visit sequence equals the lexicographic enumeration of k-subsets of 0..n-1, each once; non-trivial = distinct (n,k) with 0 < k < n",
 					Body: func(c *engine.Ctx) {
-						n := int64(c.In("n", 13))
-						k := int64(c.In("k", 13))
+						n := int64(c.In("n", combN))
+						k := int64(c.In("k", combN))
 						if k > n {
 							c.Skip("k>n")
 						}
@@ -302,16 +305,15 @@ func init() {
 							c.Violation("C20:Combinations:not-the-lexicographic-enumeration", map[string]any{"n": n, "k": k, "got_n": len(got), "want_n": len(want), "got_head": fmt.Sprint(head2(got, 4)), "want_head": fmt.Sprint(head2(want, 4))})
 						}
 					}},
-				{Name: "vectors-lines", Serial: true, Bounds: engine.Bounds{InputDev: -1},
-					Rule: "all pairs of 3-vectors with components in the 8-value alphabet (x,y free, z from a 3-value sub-alphabet): line parameter 0/1 = end points, Add/Sub/Scale/Dot/Cross/Norm direct formulas, rotation between the two vectors is a unit quaternion carrying the first direction onto the second (incl. exact opposites); non-trivial = distinct pairs of non-parallel non-zero vectors",
+				{Name: "vectors-lines", Serial: !thorough, ShardDepth: 2, Bounds: engine.Bounds{InputDev: -1},
+					Rule: "all pairs of 3-vectors with components in the 8-value alphabet (x,y free, z from a 3-value sub-alphabet; thorough: z free too): line parameter 0/1 = end points, Add/Sub/Scale/Dot/Cross/Norm direct formulas, rotation between the two vectors is a unit quaternion carrying the first direction onto the second (incl. exact opposites); non-trivial = distinct pairs of non-parallel non-zero vectors",
 					Body: func(c *engine.Ctx) {
-						zc := []float64{0, 1, -2}
-						a := spatial.Vector3{X: vecComps[c.In("ax", 8)], Y: vecComps[c.In("ay", 8)], Z: zc[c.In("az", 3)]}
+						a := spatial.Vector3{X: vecComps[c.In("ax", 8)], Y: vecComps[c.In("ay", 8)], Z: zc[c.In("az", len(zc))]}
 						bsel := c.In("bkind", 3)
 						var b spatial.Vector3
 						switch bsel {
 						case 0:
-							b = spatial.Vector3{X: vecComps[c.In("bx", 8)], Y: vecComps[c.In("by", 8)], Z: zc[c.In("bz", 3)]}
+							b = spatial.Vector3{X: vecComps[c.In("bx", 8)], Y: vecComps[c.In("by", 8)], Z: zc[c.In("bz", len(zc))]}
 						case 1:
 							b = a.Scale(-1) // exact opposite
 						case 2:
